@@ -7,6 +7,15 @@ HERE = os.path.dirname(os.path.dirname(os.path.abspath(__file__)))
 
 # id -> (level category, technique, level text, level note, design ref)
 CHECKS = {
+    'C09': ('exploration', 'identity log (addresses of locator, dispatcher, runtime seen by the mock component vs shell members) over all 8 locator shapes; detection idiom for Locator()',
+            'Held on the constructions of the run: every program constructed once per subset of {dispatcher, runtime, other service} in the user locator, under ASan+UBSan.',
+            'The mock locator exposes its service map to the instrumented mock component; addresses are compared, not names.',
+            'DESIGN.md section 3 C09'),
+    'C10': ('fault_enumeration', 'outcome log of FinalConstruct() with exactly one binding omitted, enumerated over user-side and component-side events',
+            'Held on the runs of the run: per program all-bound (must succeed, parent recorded, late registration refused) and one run per omitted binding '
+            '(per client for multi-client ports), each of which must end in a binding error.',
+            'Mock component checks its own ports like Dezyne-generated components; omitted bindings per program capped at 12 (quick) / 40 (thorough) per side.',
+            'DESIGN.md section 3 C10'),
     'C01': ('exploration', 'offline trace check (exactly-once routing, unique argument ids) over the event log of the compiled shell + mock runtime',
             'Held on the compiled programs of the run: every event of every exposed port stimulated three times in its direction; the checker demands '
             'a bijection stimuli <-> arrivals with equal port, event, id vectors, replies and out values.',
